@@ -20,6 +20,21 @@ CHECKS = {
              'encoded, tokenised by an independent tokenizer and parsed back; the finite table space is enumerated '
              'completely, open-ended segments up to N indices.',
         note='trusts er7ref tokenizer and tables.py; witness literal per base datatype'),
+    'C06': dict(
+        technique='runtime monitoring: icontract post-condition on the real TextualDataType.to_er7 + reference escaper over exhaustive string grids',
+        category='exploration', design='DESIGN.md §4 C06',
+        text='Every string up to a length bound over {delimiters, escape, H E F L, ordinary chars} is encoded by the real '
+             'textual classes under the default and seeded random delimiter sets; a contract on to_er7 and a boundary oracle '
+             'check delimiter-safety, sequence membership of every escape char, idempotence, the fixed point on well-formed '
+             'text, and count preservation of datatype-object assignment inside messages.',
+        note='trusts er7ref.well_formed/ref_escape; CR not in the alphabet'),
+    'C13': dict(
+        technique='runtime monitoring: three-valued lexical-grammar oracle over exhaustive string / time / offset / calendar grids',
+        category='exploration', design='DESIGN.md §4 C13',
+        text='datatype_factory and SubComponent are driven with every string up to a bound over digits . + - blank e, full '
+             'time-of-day, offset and calendar grids and over-long values, for every version and both levels; an independent '
+             'HL7 grammar decides membership, re-encoding is compared with the input text / number.',
+        note='trusts lexref; strings HL7 does not settle are not judged for acceptance'),
 }
 
 ORDER = sorted(CHECKS)
